@@ -190,6 +190,47 @@ CHECKS["C04"] = ("exploration",
 
 PENDING = {}
 
+# what rounds 3-6 of independent seeded changes added to each check (appended to the technique text)
+ADDED = {
+    "C01": "histories with refused set_params calls; an untouched witness instance; None / NumPy-scalar values",
+    "C02": "20 invalid-input classes incl. unconvertible weights; k-th-fit faults of inner estimators below the root",
+    "C03": "histories with a refused fit, DataFrames with other column names, other values of the same shape, a "
+           "second instance fitted in between, reflected accessors called between fits, a fit under the poisoned "
+           "allocator",
+    "C04": "accessor purity, float labels, a buffer refilled in place, a float32 / Fortran batch served in between, "
+           "outputs under the poisoned allocator",
+    "C05": "scale classes with scale-relative slack (LP optimum taken at unit scale), copy_X=False, strict weighted "
+           "normalisation (integer weights = repeated rows for score), layouts, set_params / NumPy-scalar configuration",
+    "C06": "refused fit under the other norm between two calls, scale classes, fit_transform, layouts, "
+           "set_params / NumPy-scalar configuration",
+    "C07": "an earlier life with strategy='weights', layouts, integer data, set_params / NumPy-scalar configuration",
+    "C08": "Series targets / weights with permuted index, refit refused by the binner, local models keep their own "
+           "rows (reference + copy), layouts, set_params configuration",
+    "C09": "tiny / huge targets with relative slack, rank-deficient designs, dirtying init with another order and "
+           "other weights, training dtypes and layouts",
+    "C10": "exact predict rule on the model's own probabilities (ties included), float32 features, frames with a "
+           "permuted index at fit and predict time, set_params / NumPy-scalar configuration",
+    "C11": "poisoned allocator on every numeric comparison, all-zero columns, 4097 / 5000-row matrices, refused "
+           "calls and refused fits inside histories, a buffer refilled in place",
+    "C12": "integer bins of every width and signedness, lists and views, the helpers re-checked after a refit of the "
+           "same estimator, trees trained with missing values, a buffer refilled in place",
+    "C13": "refit refused by the inner classifier, one transformer object shared by two models, label matrices in "
+           "C / Fortran / transposed layouts and strided label vectors",
+    "C14": "the same vectorizer objects reconfigured with set_params and refitted three times",
+    "C15": "call sequences with refused calls and refits, wrapped estimator refitted in place, (n, 1) targets, "
+           "wrapped estimators trained on DataFrames, original compared even when fit raises",
+    "C16": "deep copy of an altered pipeline fitted again, a refused second alteration, refused inputs given to the "
+           "altered pipeline and to an untouched twin",
+    "C17": "pandas and CSR containers, refit asked about the same batch objects, a buffer refilled in place, members "
+           "keep their own rows, base regressors that cannot take weights, layouts, set_params configuration",
+    "C18": "object / float32 columns, permuted index, warm_start ensembles vs the same without, a buffer refilled in "
+           "place",
+    "C19": "three spellings of a missing cell, numeric-dtype categories, a column without category at fit, "
+           "narrow-then-full / refused-then-full / clone-of-fitted histories, transform after refused calls",
+    "C20": "memory layouts of series / exogenous block / weights, one model object re-parametrised between calls, "
+           "the empty-table boundary and every call under the poisoned allocator",
+}
+
 
 def manifest():
     ids = ["C%02d" % i for i in range(1, 21)]
@@ -207,7 +248,7 @@ def manifest():
             "engine": "vrt",
             "level_claimed": {"category": cat, "text": text, "design_ref": ref},
             "level_note": TRUST,
-            "technique": tech,
+            "technique": tech + ("; workloads widened with: " + ADDED[pid] if pid in ADDED else ""),
         })
     na = [{"property_id": pid, "reason": PENDING.get(pid, "check not built yet in this round; "
            "runtime monitoring applies (see DESIGN.md §3), the property is simply not claimed yet")}
